@@ -76,11 +76,14 @@ class PASHARungSystem(PromotionRungSystem):
             List of at most two lists with tuple(trial_id, rank, score)
         """
         rankings = []
+        num_rungs = len(self._rungs)
         # be careful, self._rungs is ordered with the highest resources level in the beginning
-        for rung in [
-            self._rungs[-self.current_rung_idx],
-            self._rungs[-self.current_rung_idx + 1],
-        ]:
+        for rung_pos in [-self.current_rung_idx, -self.current_rung_idx + 1]:
+            if not (-num_rungs <= rung_pos < num_rungs):
+                # With a single rung level, there is no previous rung to
+                # compare with
+                continue
+            rung = self._rungs[rung_pos]
             if rung:
                 # Note that entries in ``rung.data`` are already sorted
                 trial_ids, values = zip(
@@ -164,8 +167,14 @@ class PASHARungSystem(PromotionRungSystem):
             previous_rung_groups.append(set(current_rung_group))
 
         # evaluate if a configuration has switched its group
+        # Note: A trial which started in a higher bracket is in the top rung,
+        # but not in the previous rung. It has no group to be compared with,
+        # which counts as a change of the ranking
         for idx, item in enumerate(sorted_top_rung):
-            if item[0] not in previous_rung_groups[idx]:
+            if (
+                idx >= len(previous_rung_groups)
+                or item[0] not in previous_rung_groups[idx]
+            ):
                 keep_current_budget = False
                 break
 
@@ -181,6 +190,11 @@ class PASHARungSystem(PromotionRungSystem):
         The original value of epsilon is kept if no suitable configurations were found.
         """
 
+        num_rungs = len(self._rungs)
+        if not (-num_rungs <= -self.current_rung_idx + 1 < num_rungs):
+            # With a single rung level, there is no previous rung, so no
+            # rankings to compare
+            return
         seen_pairs = set()
         noisy_cfg_distances = []
         top_epoch = min(
